@@ -3,6 +3,7 @@ def T(mod, names):
     return [(mod, n, None) for n in names.split()]
 
 EXTRA = {
+    "C16": T("SoundnessProofs", "C01_accept_implies_signature") + T("AuthProofs", "C03_scope_date_is_utc_date C04_textual_independence_decision"),
     "C09": T("UriImpProofs", "normalize_elem_imp_correct canon_path_imp_correct"),
     "C10": T("UriImpProofs", "normalize_elem_imp_correct"),
     "C01": T("SoundnessProofs", "model_creq_is_spec C01_accept_implies_signature C01_accept_implies_signature_modulo_path C01_cross_request "
